@@ -276,6 +276,35 @@ Fixpoint index_of (x : bytes) (l : list bytes) (i : nat) : option nat :=
   | y :: r => if bytes_eqb x y then Some i else index_of x r (S i)
   end.
 
+(* --tag is a slice flag: kong splits its value at commas (SplitEscaped; a backslash would escape a comma — not
+   modelled, such values are outside the correspondence), drops an empty last piece and hands every piece to
+   tagDecoder, which rejects the empty string *)
+Fixpoint split_comma (s cur : bytes) : list bytes :=
+  match s with
+  | [] => [rev cur]
+  | x :: r => if (x =? 44)%N then rev cur :: split_comma r [] else split_comma r (x :: cur)
+  end.
+
+Definition comma_separated (s : bytes) : list bytes :=
+  let l := split_comma s [] in
+  match rev l with
+  | [] :: r => rev r
+  | _ => l
+  end.
+
+Fixpoint decode_tags (a : filter_args) (pieces : list bytes) : outcome filter_args :=
+  match pieces with
+  | [] => Ok a
+  | [] :: _ => Err EBadArg
+  | p :: r =>
+    match go_new_tag_from_string p with
+    | Ok (Some t) => decode_tags (set_tag a t) r
+    | Ok None => Err EBadArg
+    | Err _ => Err EBadArg
+    | Crash c => Crash c
+    end
+  end.
+
 (* dateDecoder / periodDecoder / tagDecoder / entryTypeDecoder on one `--name=value`; every decoder rejects the
    empty value; an error is Err, a panic inside a constructor is Crash *)
 Definition decode_flag (a : filter_args) (name value : bytes) : outcome filter_args :=
@@ -305,12 +334,7 @@ Definition decode_flag (a : filter_args) (name value : bytes) : outcome filter_a
   else if bytes_eqb name b!"tag" then
     match value with
     | [] => Err EBadArg
-    | _ => match go_new_tag_from_string value with
-           | Ok (Some t) => Ok (set_tag a t)
-           | Ok None => Err EBadArg
-           | Err _ => Err EBadArg
-           | Crash c => Crash c
-           end
+    | _ => decode_tags a (comma_separated value)
     end
   else if bytes_eqb name b!"entry-type" then
     match value with
